@@ -235,6 +235,35 @@ def worker(arg):
                                f"convert_from_storage_to_standard_format({spec[1]} {spec[2:]}, {stored!r}) = ({val!r}, {unit!r}), the stored "
                                f"number stands for {want!r} {base_}", {'cfg': cfg, 'spec': spec, 'stored': stored}, want, got))
                 break
+    # the configured default densities are the ones in force: 1 mL of an enzyme holds default_enzyme_density activity units,
+    # 1 mL of a solid weighs default_solid_density grams (the configuration of THIS process is known: PMC_CONFIG_OVERRIDES)
+    for key, spec, tu in (('default_enzyme_density', SUBST[6], 'U'), ('default_solid_density', SUBST[0], 'g')):
+        if key in cfg and cfg[key] != 'inf':
+            n += 1
+            try:
+                got = U.convert_from(mk(pp, spec), 1, 'mL', tu)
+            except Exception as e:  # noqa
+                got = type(e).__name__
+            if isinstance(got, str) or abs(got - float(cfg[key])) > 1e-9 * float(cfg[key]):
+                viols.append(V(f"config | configured-density-not-in-force | key={key}",
+                               f"pyplate.yaml sets {key}: {cfg[key]} but 1 mL of {spec[1]} converts to {got!r} {tu}",
+                               {'cfg': cfg, 'density_key': key}, float(cfg[key]), got))
+    # the specific activity an enzyme is created with, in every spelling of the documented forms (activity per mass, mass per
+    # activity, prefixes and a count on either side): equivalent spellings make the same substance (2 mg hold the same activity)
+    for cls, want in ((['10 U/mg', '0.1 mg/U', '10000 U/g', '10 kU/g', '0.0001 g/U', '1 g/10 kU', '10 mU/ug', '100 ug/U', '0.01 kU/mg',
+                        '1 U/0.1 mg'], 20.0),
+                      (['4 U/g', '0.25 g/U', '250 mg/U', '4 mU/mg', '0.004 U/mg', '1 g/4 U'], 0.008)):
+        for sp in cls:
+            n += 1
+            try:
+                got = U.convert_from(pp.Substance.enzyme('e', sp), 2, 'mg', 'U')
+            except Exception as e:  # noqa
+                got = type(e).__name__
+            if isinstance(got, str) or abs(got - want) > 1e-9 * want:
+                viols.append(V("Substance.enzyme | wrong-specific-activity | spelling=" + ('mass-per-activity' if sp.split('/')[-1].endswith('U')
+                                                                                        else 'activity-per-mass'),
+                               f"2 mg of Substance.enzyme('e', {sp!r}) hold {got!r} U, the stated specific activity gives {want!r}",
+                               {'cfg': cfg, 'enzyme_spelling': sp}, want, got))
     # storage conversions
     pm, pv = ref.storage_prefix(pp, 'mol'), ref.storage_prefix(pp, 'L')
     for p in PREFIXES:
